@@ -91,16 +91,19 @@ func compose(n *Node, path []int, hold map[string]int, roots []*VNode) *VNode {
 	return &cp
 }
 
-func unmarshalInto(ptr reflect.Value, in []byte, lax bool) (rest []byte, errs, panicked string) {
+func unmarshalInto(ptr reflect.Value, in []byte, top string, lax bool) (rest []byte, errs, panicked string) {
 	defer func() {
 		if r := recover(); r != nil {
 			panicked = fmt.Sprint(r)
 		}
 	}()
 	var err error
-	if lax {
-		rest, err = asn1.UnmarshalWithParams(in, ptr.Interface(), "lax")
-	} else {
+	switch {
+	case lax:
+		rest, err = asn1.UnmarshalWithParams(in, ptr.Interface(), withLax(top))
+	case top != "":
+		rest, err = asn1.UnmarshalWithParams(in, ptr.Interface(), top)
+	default:
 		rest, err = asn1.Unmarshal(in, ptr.Interface())
 	}
 	if err != nil {
@@ -112,13 +115,13 @@ func unmarshalInto(ptr reflect.Value, in []byte, lax bool) (rest []byte, errs, p
 	return
 }
 
-func marshalValue(v reflect.Value) (b []byte, errs string) {
+func marshalValue(v reflect.Value, top string) (b []byte, errs string) {
 	defer func() {
 		if r := recover(); r != nil {
 			b, errs = nil, "panic: "+fmt.Sprint(r)
 		}
 	}()
-	out, err := asn1.Marshal(v.Interface())
+	out, err := asn1.MarshalWithParams(v.Interface(), top)
 	if err != nil {
 		return nil, err.Error()
 	}
@@ -135,6 +138,7 @@ func runHist(h *Hist, rep *vh.Report, modelErr func(string, ...any)) obs {
 	key := h.key()
 	tFork := cachedType(key, h.Tree, fork, nil)
 	tStd := cachedType(key, h.Tree, std, nil)
+	top := rootParams(h.Tree) // top-level parameters of the shape
 	slotIdx := map[string]int{}
 	for i, p := range h.Slots {
 		slotIdx[pathKey(p)] = i
@@ -199,7 +203,7 @@ func runHist(h *Hist, rep *vh.Report, modelErr func(string, ...any)) obs {
 			behind = append([]byte{}, shared[len(r.input):]...)
 		}
 
-		rest, errs, panicked := unmarshalInto(dstFork, in, lax)
+		rest, errs, panicked := unmarshalInto(dstFork, in, top, lax)
 		got := "accept"
 		switch {
 		case panicked != "":
@@ -216,7 +220,7 @@ func runHist(h *Hist, rep *vh.Report, modelErr func(string, ...any)) obs {
 			copy(sharedStd, r.input)
 			inStd = sharedStd[:len(r.input)]
 		}
-		restStd, errStd := stdasn1.Unmarshal(inStd, dstStd.Interface())
+		restStd, errStd := stdasn1.UnmarshalWithParams(inStd, dstStd.Interface(), top)
 		gotStd := "accept"
 		if errStd != nil {
 			gotStd = "reject"
@@ -308,8 +312,8 @@ func runHist(h *Hist, rep *vh.Report, modelErr func(string, ...any)) obs {
 		// Marshal: round trip of the call's own value; twice the same; earlier results untouched
 		line := fmt.Sprintf("%s|%s|%x", got, canonFork, rest)
 		if got == "accept" {
-			m, me := marshalValue(dstFork.Elem())
-			m2, _ := marshalValue(dstFork.Elem())
+			m, me := marshalValue(dstFork.Elem(), top)
+			m2, _ := marshalValue(dstFork.Elem(), top)
 			line += fmt.Sprintf("|%x|%s", m, me)
 			if prevM != nil && !bytes.Equal(prevM, prevMWant) {
 				rep.Violate("history:marshal-result-modified:"+id, fmt.Sprintf("%s: the bytes returned by Marshal after call %d changed from %s to %s", where, prevMStep, hxs(prevMWant), hxs(prevM)), replay)
@@ -322,7 +326,7 @@ func runHist(h *Hist, rep *vh.Report, modelErr func(string, ...any)) obs {
 					fmt.Sprintf("%s: Marshal(Unmarshal(b)) = %s %s", where, hxs(m), me), short(replay))
 			}
 			if st.Sync && st.E.MEqMode {
-				ms, es := stdasn1.Marshal(dstStd.Elem().Interface())
+				ms, es := stdasn1.MarshalWithParams(dstStd.Elem().Interface(), top)
 				if !bytes.Equal(m, ms) || (me == "") != (es == nil) {
 					rep.Violate(fmt.Sprintf("history:marshal-agrees:%s:%s%s", call, id, lenClass(h.Tree)),
 						fmt.Sprintf("%s: the fork marshals the destination as %s %s, encoding/asn1 its own as %s %v", where, hxs(m), me, hxs(ms), es), short(replay))
